@@ -317,9 +317,7 @@ def step (st : DState) (line : String) : DState × Option String :=
     ({ st with reg := st.reg.step theSorter srcProg (fun i => envFor st (langOfIndex i)) (.destroy (parseNat id)) }, some "ok")
   | ["rclear", id] =>
     -- `using_store(id, |s| s.clear())`: not an operation of the bridge, reachable through the Rust API only
-    (match amGet st.reg.stores (parseNat id) with
-     | some (lang, s) => ({ st with reg := { st.reg with stores := amSet st.reg.stores (parseNat id) (lang, s.clear) } }, some "ok")
-     | none => (st, some "ok"))
+    ({ st with reg := st.reg.step theSorter srcProg (fun i => envFor st (langOfIndex i)) (.clearStore (parseNat id)) }, some "ok")
   | ["rmarkers", id, l, r] =>
     ({ st with reg := st.reg.step theSorter srcProg (fun i => envFor st (langOfIndex i)) (.highlightWith (parseNat id) (parseList l) (parseList r)) }, some "ok")
   | ["rlimit", id, n] =>
